@@ -7,7 +7,6 @@ From Crusta Require Import Spec.AF Sat.Cnf Sat.Prog Model.Store Model.Encoders M
 From Crusta Require Import Model.Equiv.
 From Crusta Require Import Model.Readers Model.Writers.
 From Crusta Require Import Sat.Dpll Sat.Dimacs Model.SatObjects Model.Pipe.
-From Crusta Require Import Spec.AF Sat.Cnf Sat.Prog Model.Store Model.Encoders Model.Graph Model.Solvers Model.Equiv.
 From Crusta Require Import Model.Cli.
 Extraction Language OCaml.
 Separate Extraction
@@ -42,8 +41,8 @@ Separate Extraction
   SatObjects.vdpll_fn SatObjects.dpll_backend SatObjects.buf_instance SatObjects.verdict_of
   SatObjects.obs_of_reply SatObjects.clauses_of
   Pipe.run_config Pipe.steps Pipe.init Pipe.stuck
-  (* (new roots go above this line; the terminating period stays alone on the next line) *)
-.
   (* command-line tools (C05) *)
   Cli.parse_main Cli.parse_wrapper Cli.exec Cli.iccma_instance Cli.apx_instance Cli.problems_21
-  Cli.read_problem_string Cli.wrapper_argv Cli.run_script Cli.parse_answer Cli.beqb Store.new_attack.
+  Cli.read_problem_string Cli.wrapper_argv Cli.run_script Cli.parse_answer Cli.beqb Store.new_attack
+  (* (new roots go above this line; the terminating period stays alone on the next line) *)
+.
